@@ -28,6 +28,11 @@ OPL reader:
  R3-verbatim-copy-excludes-structural  cursor typestate of opl_parse_string: the bytes that can reach the literal copy (dataflow of
         the tests since the cursor last changed by an increment / a call taking its address) contain neither the escape introducer,
         nor a frame byte of the writer, nor a separator opl_parse_char expects right after a string, nor a section delimiter, nor NUL.
+ R4-unescape-accepts-scalar-values  accept set of opl_parse_escaped (interval evaluation of every guard in front of the append of the
+        decoded value, over 0..2^32-1) contains every scalar value the writer escapes, and whatever is refused is a surrogate or lies
+        above U+10FFFF.
+ E1-escaper-exceptions-reach-caller  no function from which the decoder's throw (cut-off / invalid UTF-8) is reachable through
+        resolved calls is noexcept, unless the call sits in a try whose handlers cover the thrown types.
  R2-utf8-encoder-table  append_codepoint_as_utf8: range thresholds and every emitted byte (bit-slice evaluation) equal
         the UTF-8 encoding table.
 XML writer:
@@ -349,7 +354,7 @@ def opl_writer_rules(fb, R):
     except (Broken, Unsupported) as e:
         R.broken(str(e))
         return
-    for rule in (_o1, _o2, _o3, _o4_o5, _o6, _r1, _r3):
+    for rule in (_o1, _o2, _o3, _o4_o5, _o6, _r1, _r3, _r4):
         try:
             rule(fb, R, wm, rm)
         except (Broken, Unsupported) as e:
@@ -800,6 +805,41 @@ def _r3(fb, R, wm, rm):
         R.check(not hit, rule, '%s#copy-vs#%s' % (PSTR, key), site,
                 'opl_parse_string can copy %s literally without having tested it since the cursor last moved (%s)' % (_set_bytes(hit) if hit else '', what),
                 detail='bytes that can reach the copy: %s' % V.fmt())
+
+
+SURROGATES = ISet.span(0xd800, 0xdfff)
+
+
+def _r4(fb, R, wm, rm):
+    """Accept set of opl_parse_escaped: the values of the accumulator for which the decoded value is appended (interval
+    evaluation of every guard between the terminator and append_codepoint_as_utf8 over 0..2^32-1)."""
+    rule = 'R4-unescape-accepts-scalar-values'
+    fe = rm.pe
+    call = rm.enc_call
+    dom = ISet.span(0, (1 << 32) - 1)
+    res = unique_def_resolver(fe)
+    A = var_guard_set(fe, call['id'], rm.d_value, dom, res, make_callee_summary(fb))
+    # the guards refer to the finished value: no digit is accumulated between a guard and the append
+    bar_ok = True
+    for (c, _sense, X) in guards(fe, call['id']):
+        if not depends_on(fe, c, rm.d_value, res):
+            continue
+        for m in modifications(fe, rm.d_value):
+            if fe.positions()[m][0] != X and forward_reach(fe, c, m) and forward_reach(fe, m, call['id']):
+                bar_ok = False
+    if not bar_ok:
+        raise Broken('%s: the accumulator changes between a range test and the append of the decoded value' % PESC)
+    site = fe.loc(call['id'])
+    W = CODEPOINTS - wm.P - SURROGATES - ISet.of(0)            # scalar values the writer emits as escapes
+    lost = W - A
+    R.check(not lost, rule, PESC + '#accepts-every-escaped-scalar', site,
+            'the writer escapes %s but %s refuses %s (first: U+%04X, written as %%%x%%)'
+            % (W.fmt(), PESC, lost.fmt(), lost.min() if lost else 0, lost.min() if lost else 0), detail='accept set %s' % A.fmt())
+    rejected = ISet.span(1, (1 << 32) - 1) - A
+    wrong = rejected - SURROGATES - ISet.span(0x110000, (1 << 32) - 1)
+    R.check(not wrong, rule, PESC + '#rejects-only-non-scalars', site,
+            '%s refuses the Unicode scalar value(s) %s; only surrogates (U+D800..U+DFFF) and values above U+10FFFF may be refused'
+            % (PESC, wrong.fmt()), detail='rejected %s' % rejected.fmt())
 
 
 def _r1(fb, R, wm, rm):
@@ -1577,6 +1617,62 @@ def _safe_disjunction(fn, c, d):
     return False
 
 
+# ================================================================================================ exceptions reach the caller
+
+def exception_rules(fb, R):
+    """EXCFLOW: a cut-off / invalid UTF-8 sequence is reported by a throw in the decoder.  Every function from which that
+    throw is reachable through resolved calls must let it pass: it is not noexcept, or the call is inside a try whose
+    handlers cover the thrown types."""
+    rule = 'E1-escaper-exceptions-reach-caller'
+    try:
+        srcs = [f for q in (DECODE, SEQLEN, WR, DBG, XMLENC) for f in fb.fns(q)]
+        thrown = {}     # usr -> set of frozenset(type + bases) that can leave the function
+        for f in srcs:
+            for n in f.all_nodes():
+                if n.get('k') == 'throw' and not n.get('rethrow') and not f.enclosing_tries(n['id']):
+                    thrown.setdefault(f.usr, set()).add((n.get('tt'), frozenset([n.get('tt')] + list(n.get('bases', [])))))
+        if not thrown:
+            raise Broken('no throw found in the escaping code (next_utf8_codepoint)')
+
+        def uncaught(f, c, types):
+            """thrown types of a callee that are not covered by a try around call c in f"""
+            left = set(types)
+            for t in f.enclosing_tries(c['id']):
+                for h in t['handlers']:
+                    if h.get('all'):
+                        return set()
+                    left = {ty for ty in left if h.get('typeq') not in ty[1] and h.get('type') not in ty[1]}
+            return left
+        changed = True
+        via = {}
+        while changed:
+            changed = False
+            for f in fb.functions:
+                for c in f.calls():
+                    ts = thrown.get(c.get('u'))
+                    if not ts:
+                        continue
+                    left = uncaught(f, c, ts)
+                    if left - thrown.get(f.usr, set()):
+                        thrown.setdefault(f.usr, set()).update(left)
+                        via.setdefault(f.usr, c)
+                        changed = True
+        n = 0
+        for f in fb.functions:
+            if f.usr not in thrown or not thrown[f.usr]:
+                continue
+            n += 1
+            c = via.get(f.usr)
+            types = sorted({str(t[0]) for t in thrown[f.usr]})
+            R.check(not f.noexcept, rule, '%s#lets-escaper-exceptions-pass' % f.q, f.site,
+                    '%s is noexcept but %s can throw %s for a cut-off / invalid UTF-8 sequence (e.g. "caf\\xc3"): the error ends in '
+                    'std::terminate instead of reaching the caller' % (f.q, ('its callee ' + c['q']) if c is not None else 'it', ', '.join(types)))
+        if n == 0:
+            raise Broken('no function reaches the decoder throw')
+    except (Broken, Unsupported) as e:
+        R.broken('E1: %s' % e)
+
+
 # ================================================================================================ cursor advance
 
 def advance_rules(fb, R):
@@ -1620,6 +1716,7 @@ def all_rules(fb, R):
     xml_rules(fb, R)
     sink_rules(fb, R)
     advance_rules(fb, R)
+    exception_rules(fb, R)
 
 
 def run(ctx):
@@ -1638,6 +1735,10 @@ def run(ctx):
     R.expect('O8-escaped-value-is-codepoint', 2)     # both formatter calls
     R.expect('O7-opl-strings-escaped', 6)            # forwarder + key, value, user, role, changeset user
     R.expect('R1-unescape-accumulates-hex', 9)
+    R.expect('R4-unescape-accepts-scalar-values', 2)
+    # 25 today: decoder, 2 escapers, 2 forwarders, the OPL/debug write_* helpers and handler callbacks, osmium::apply*; the floor
+    # tolerates helpers being inlined / merged
+    R.expect('E1-escaper-exceptions-reach-caller', 12)
     R.expect('R3-verbatim-copy-excludes-structural', 8)  # introducer, writer frame, 3 separators after strings, 2 section sets, NUL
     R.expect('R2-utf8-encoder-table', 5)
     R.expect('X1-xml-entity-table', 9)               # 8 characters + default
@@ -1667,6 +1768,6 @@ def _selftest_all(fb, R):
 
 SELFTESTS = [(rule, 'c14_escape.cpp', _selftest_all) for rule in (
     'O1-passthrough-disjoint-delims', 'O2-escape-frame', 'O3-hex-alphabet', 'O4-hex-digits-positional', 'O5-hex-length-within-reader-limit',
-    'O6-passthrough-verbatim', 'O8-escaped-value-is-codepoint', 'O7-opl-strings-escaped', 'R1-unescape-accumulates-hex', 'R3-verbatim-copy-excludes-structural', 'R2-utf8-encoder-table', 'X1-xml-entity-table',
+    'O6-passthrough-verbatim', 'O8-escaped-value-is-codepoint', 'O7-opl-strings-escaped', 'R1-unescape-accumulates-hex', 'R4-unescape-accepts-scalar-values', 'E1-escaper-exceptions-reach-caller', 'R3-verbatim-copy-excludes-structural', 'R2-utf8-encoder-table', 'X1-xml-entity-table',
     'X2-xml-strings-escaped', 'X3-xml-text-chunks-appended', 'N1-cursor-advance-guarded', 'N2-utf8-decode-bounded', 'N3-utf8-length-table', 'N4-end-is-strlen',
     'U2-utf8-decode-assembly')]
